@@ -1,6 +1,6 @@
 // C05 harness: evaluate one arithmetic expression on typed operands and report
 // (width/sign/float class, exact value bits) of the result and of `a` afterwards.
-// case line:  <hex script> <ltype> <lval> <rtype> <rval> [opt|noopt]
+// case line:  <route> <op> <ltype> <lval> <rtype> <rval> [noopt]   (rtype/rval '-' for unary)
 #include "hcommon.hpp"
 #include <cmath>
 #include <cstdint>
@@ -68,34 +68,79 @@ static Boxed_Value mk(const std::string &ty, const std::string &v) {
   throw std::runtime_error("bad type " + ty);
 }
 
+static std::string literal(const std::string &ty, const std::string &v) {
+  auto neg = [](const std::string &x) { return !x.empty() && x[0] == '-'; };
+  if (ty == "int" || ty == "cint") {
+    if (v == "-2147483648") return "(-2147483647-1)";
+    return neg(v) ? "(" + v + ")" : v;
+  }
+  if (ty == "uint") return v + "u";
+  if (ty == "long") {
+    if (v == "-9223372036854775808") return "(-9223372036854775807l-1l)";
+    return neg(v) ? "(" + v + "l)" : v + "l";
+  }
+  if (ty == "ulong") return v + "ul";
+  if (ty == "llong") {
+    if (v == "-9223372036854775808") return "(-9223372036854775807ll-1ll)";
+    return neg(v) ? "(" + v + "ll)" : v + "ll";
+  }
+  if (ty == "ullong") return v + "ull";
+  if (ty == "float" || ty == "double" || ty == "ldouble" || ty == "cdouble") {
+    long double x = ty == "float" ? parse_val<float>(v) : ty == "ldouble" ? parse_val<long double>(v) : parse_val<double>(v);
+    char buf[128];
+    snprintf(buf, sizeof buf, "%.6Lf", x < 0 ? -x : x);
+    if (std::strtold(buf, nullptr) != (x < 0 ? -x : x)) throw std::runtime_error("no exact literal");
+    std::string t = std::string(buf) + (ty == "float" ? "f" : ty == "ldouble" ? "l" : "");
+    return x < 0 || std::signbit(static_cast<double>(x)) ? "(-" + t + ")" : t;
+  }
+  throw std::runtime_error("no literal for " + ty);
+}
+
 int main(int argc, char **argv) {
   if (argc > 1 && std::string(argv[1]) == "platform") {
     std::cout << "char_signed=" << std::is_signed_v<char> << " long=" << sizeof(long) << " llong=" << sizeof(long long) << " wchar=" << sizeof(wchar_t)
-              << " wchar_signed=" << std::is_signed_v<wchar_t> << " ldouble_digits=" << std::numeric_limits<long double>::digits << "\n";
+              << " wchar_signed=" << std::is_signed_v<wchar_t> << " char16_signed=" << std::is_signed_v<char16_t> << " char32_signed=" << std::is_signed_v<char32_t>
+              << " int=" << sizeof(int) << " ldouble_digits=" << std::numeric_limits<long double>::digits << "\n";
     return 0;
   }
   std::unique_ptr<ChaiScript_Basic> eng[2];
   auto fn = [&](const std::string &line) -> std::string {
     auto f = vf::split(line);
-    if (f.size() < 5) return "BADCASE";
-    bool opt = !(f.size() > 5 && f[5] == "noopt");
+    if (f.size() < 6) return "BADCASE";
+    bool opt = !(f.size() > 6 && f[6] == "noopt");
     auto &chai = eng[opt ? 1 : 0];
     if (!chai) chai = vf::make_engine(opt);
-    std::string script = vf::unhex(f[0]);
+    const std::string &route = f[0], &op = f[1];
+    std::string script;
     std::map<std::string, Boxed_Value> locals;
     Boxed_Value a, b;
-    if (f[1] != "-") { a = mk(f[1], f[2]); locals["a"] = a; }
-    if (f[3] != "-") { b = mk(f[3], f[4]); locals["b"] = b; }
+    bool has_a = false;
+    try {
+      if (route == "fold") script = literal(f[2], f[3]) + " " + op + " " + literal(f[4], f[5]);
+      else if (route == "foldu") script = op + literal(f[2], f[3]);
+      else {
+        a = mk(f[2], f[3]); locals["a"] = a; has_a = true;
+        if (route == "foldr") script = "a " + op + " " + literal(f[4], f[5]);
+        else if (route == "pre") script = op + "a";
+        else if (route == "fnu") script = "`" + op + "`(a)";
+        else {
+          b = mk(f[4], f[5]); locals["b"] = b;
+          if (route == "bin" || route == "asg") script = "a " + op + " b";
+          else if (route == "fn") script = "`" + op + "`(a, b)";
+          else return "BADCASE";
+        }
+      }
+    } catch (const std::exception &e) { return std::string("BADCASE ") + e.what(); }
     chai->set_locals(locals);
     std::string res;
     try {
       Boxed_Value r = chai->eval(script);
       res = show(r);
-      if (f[1] != "-" && r.get_const_ptr() != nullptr && r.get_const_ptr() == a.get_const_ptr()) res += " same";
+      if (has_a && r.get_const_ptr() != nullptr && r.get_const_ptr() == a.get_const_ptr()) res += " same";
     } catch (...) {
       res = "ERR(" + vf::classify_current_exception() + ")";
     }
-    if (f[1] != "-") res += " | a=" + show(a);
+    if (has_a) res += " | a=" + show(a);
     return res;
   };
   return vf::run_cases(fn);
